@@ -23,6 +23,11 @@ def goKeywords : List String :=
 def isIdentStart (c : Char) : Bool := c.isAlpha || c == '_' || c.toNat ≥ 128
 def isIdentChar (c : Char) : Bool := c.isAlphanum || c == '_' || c.toNat ≥ 128
 
+/-- the name an import spec binds in the file scope: its alias, else the last path segment
+    (a spec is `(alias or "-", path)` as dumped by `godump.rs`) -/
+def importBinding (spec : String × String) : String :=
+  if spec.1 != "-" then spec.1 else (spec.2.splitOn "/").getLast!
+
 def legalIdent (s : String) : Bool :=
   match s.toList with
   | [] => false
@@ -39,6 +44,21 @@ partial def norm : GTy → GTy
 
 def tyEq (a b : GTy) : Bool := norm a == norm b
 
+/-- the type names a type mentions (`.struct n _` is a reference to the declared struct `n`) -/
+partial def tyNames : GTy → List String
+  | .struct n _ => [n]
+  | .name n => [n]
+  | .ptr e => tyNames e
+  | .func ps r => ps.flatMap tyNames ++ tyNames r
+  | .array _ e => tyNames e
+  | .slice e => tyNames e
+  | _ => []
+
+/-- is `n` a type the file may mention: declared in it (struct, interface, alias), predeclared, or qualified by a
+    package (`time.Duration`: whether that package is imported is the import rules' business) -/
+def typeNameKnown (declared : List String) (n : String) : Bool :=
+  declared.contains n || n == "any" || n == "error" || n.contains '.'
+
 structure FnSig where
   params : List GTy
   ret : GTy
@@ -50,6 +70,8 @@ structure Ctx where
   funcs : List (String × FnSig)
   structs : List (String × List (String × GTy) × List String)   -- fields, method names
   ifaces : List (String × List String)
+  /-- every type name the file declares (struct, interface, alias) -/
+  typeNames : List String := []
   deriving Inhabited
 
 def Ctx.isIface (c : Ctx) (t : GTy) : Option (List String) :=
@@ -186,7 +208,7 @@ partial def tyOf (c : Ctx) (fn : String) (s : Scope) (e : GExpr) : Scope × Opti
           -- `extern "go"` items: typed from their declared goml signature only (the annotation)
           match pkgOf x with
           | some p =>
-            if c.file.items.any (fun | .imports specs => specs.any (fun sp => (sp.2.splitOn "/").getLast! == p) | _ => false)
+            if c.file.items.any (fun | .imports specs => specs.any (fun sp => importBinding sp == p) | _ => false)
             then ({ s with usedPkgs := p :: s.usedPkgs }, some ann)
             else (s.err "undeclared" fn x, none)
           | none => (s.err "undeclared" fn x, none)
@@ -369,6 +391,8 @@ partial def checkStmt (c : Ctx) (fn : String) (ret : Option GTy) (s : Scope) (st
     | .call _ _ _ => (tyOf c fn s call).1
     | _ => s.err "go-needs-call" fn
   | .varDecl x t v =>
+    let s := (tyNames t).foldl (fun s n =>
+      if typeNameKnown c.typeNames n then s else s.err "undeclared-type" fn n) s
     let s := match v with
       | some e =>
         let (s, te) := tyOf c fn s e
@@ -482,6 +506,11 @@ def mkCtx (f : GFile) : Ctx :=
       | _ => none,
     ifaces := f.items.filterMap fun
       | .interface n ms => some (n, ms.map (·.1))
+      | _ => none,
+    typeNames := f.items.filterMap fun
+      | .structDef n _ _ => some n
+      | .interface n _ => some n
+      | .alias n _ => some n
       | _ => none }
 
 def dupNames (xs : List String) : List String :=
@@ -499,6 +528,19 @@ def check (f : GFile) : List GoErr :=
   let errs : List GoErr := (dupNames topNames).map fun n => { code := "redeclared", site := "top-level", detail := n }
   let errs := errs ++ (topNames.filter (fun n => !legalIdent n)).map fun n =>
     { code := "illegal-identifier", site := "top-level", detail := n }
+  -- every type a declaration mentions is declared (a function signature, a struct field, an alias target,
+  -- an interface method); variable declarations are checked with their statement
+  let mentioned : List (String × GTy) := f.items.flatMap fun
+    | .func g => g.params.map (fun p => (g.name, p.2)) ++ (match g.ret with | some r => [(g.name, r)] | none => [])
+    | .structDef n fs ms => fs.map (fun fl => (n, fl.2)) ++
+        ms.flatMap (fun m => (n ++ "." ++ m.name, m.recvTy) :: m.params.map (fun p => (n ++ "." ++ m.name, p.2)))
+    | .alias n t => [(n, t)]
+    | .interface n ms => ms.flatMap (fun m => m.2.1.map (fun p => (n ++ "." ++ m.1, p.2)) ++
+        (match m.2.2 with | some r => [(n ++ "." ++ m.1, r)] | none => []))
+    | _ => []
+  let errs := errs ++ mentioned.flatMap fun (site, t) =>
+    ((tyNames t).filter (fun n => !typeNameKnown c.typeNames n)).map fun n =>
+      { code := "undeclared-type", site := site, detail := n }
   let (errs, used) := f.funcs.foldl (fun (acc : List GoErr × List String) g =>
     let s0 : Scope := {}
     let s := g.params.foldl (fun s (x, t) => s.declare g.name x t true) s0
@@ -506,9 +548,9 @@ def check (f : GFile) : List GoErr :=
     let s := if g.ret.isSome && !terminates g.body then s.err "missing-return" g.name else s
     (acc.1 ++ s.errs, acc.2 ++ s.usedPkgs)) (errs, [])
   let imports := f.items.flatMap fun
-    | .imports specs => specs.map (·.2)
+    | .imports specs => specs
     | _ => []
-  errs ++ (imports.filter (fun p => !used.contains ((p.splitOn "/").getLast!))).map fun p =>
-    { code := "unused-import", site := "imports", detail := p }
+  errs ++ (imports.filter (fun sp => !used.contains (importBinding sp))).map fun sp =>
+    { code := "unused-import", site := "imports", detail := sp.2 }
 
 end Goml.Go
